@@ -75,4 +75,40 @@ META = {
         "note": "Trusted: Lean kernel (standard axioms only) for the theorems; the vh-e2e harness, trace format, python RFC frame/TLS parsers and oracles for the tie. The end-to-end exploration is sampling of real client+server runs on the repo's deterministic IO provider (it validates the model's assumptions against the implementation); TLS, AEAD and the OS are not modelled.",
         "technique": "Lean 4 invariant proofs over the stream-sender model + end-to-end per-stream frame-consistency trace oracle",
     },
+
+    "C09": {
+        "category": "proof",
+        "text": ("Lean theorems over models of loss::detect, RttEstimator, Pto and the recovery manager's bookkeeping (a packet is reported lost "
+                 "only under the RFC 9002 6.1 conditions up to the 1 ms timer granularity, a PTO expiry never removes sent packets, every sent "
+                 "packet is resolved exactly once, bytes in flight equals the sum of unresolved congestion-controlled packets, RTT within the "
+                 "sample range, PTO >= granularity and doubling). Tie: constants/operators re-extracted from the Rust source with bridge lemmas, "
+                 "differential runs of the Lean driver against the real loss::detect / RttEstimator / Pto, and real end-to-end traces in which "
+                 "every packet_lost event is justified from the packet_sent / ack_range_received / recovery_metrics history and bytes_in_flight "
+                 "is reconciled with the unresolved 1-RTT packets after every event."),
+        "note": "Trusted: Lean kernel (standard axioms only) for the theorems; the harnesses, trace format, python RFC parsers and oracles for the tie. The strict 9/8*RTT reading is false of the code by up to 1 ms (known finding F2, proved as a counterexample); ECN validation, MTU probing and pacing are not modelled.",
+        "technique": "Lean 4 theorem proving over recovery models + regenerated-constant bridges + differential and end-to-end event-trace correspondence",
+    },
+    "C10": {
+        "category": "proof",
+        "text": ("PARTIAL. CUBIC uses f32 arithmetic, BBR a bandwidth model: the Lean models are skeletons (integer/enum state, every float "
+                 "expression an oracle value constrained only by the guards the code applies); theorems hold for all oracle values: window never "
+                 "below the controller minimum, loss never increases the window, one reduction per recovery period, no growth while "
+                 "application-limited, persistent congestion collapses to the minimum, in-flight counter exact. Tie: constants re-extracted with "
+                 "bridge lemmas, the real CubicCongestionController / BbrCongestionController driven through the CongestionController trait with "
+                 "the bounds checked after every event, and recovery_metrics of live connections."),
+        "note": "Trusted: Lean kernel (standard axioms only) for the theorems; the harnesses, trace format, python RFC parsers and oracles for the tie. Floating-point values, BBR's estimator/probe state machines and pacing are not modelled (skeleton only).",
+        "technique": "Lean 4 theorems over controller skeletons (float expressions as constrained oracle parameters) + per-event bound checking on the real controllers + end-to-end metrics oracle",
+    },
+    "C19": {
+        "category": "proof",
+        "text": ("Lean theorems by induction over arbitrary sequences: the dc replay window accepts a key id iff it is not the reserved maximum, "
+                 "was not accepted before and is above or less than 896 below the highest accepted id (replay_exact), never twice "
+                 "(replay_at_most_once), and refines a set+max specification; the sender's atomic counter issues pairwise distinct, strictly "
+                 "increasing ids under every interleaving of next/fetch_max steps and never wraps. Tie: window size, sentinel and every "
+                 "comparison operator re-extracted from the Rust source with bridge lemmas; the Lean driver is run against the real "
+                 "receiver::State / sender (through the secret map's production entry points) including full bitset snapshots, window-edge "
+                 "histories, exhaustive short sequences and multi-threaded stress with schedule-independent summaries."),
+        "note": "Trusted: Lean kernel (standard axioms only) for the theorems; the harnesses, trace format, python RFC parsers and oracles for the tie. Assumed: Mutex mutual exclusion, bitvec shift/fill semantics, atomicity of fetch_update/fetch_max.",
+        "technique": "Lean 4 refinement/induction proofs over the replay-window and key-id models + regenerated-constant bridges + differential (incl. exhaustive and threaded) correspondence",
+    },
 }
